@@ -65,6 +65,31 @@ func c10vars(c *h.Ctx, idx int, staged bool, assign string, r *h.Rand) {
 		cfg.Set("pipelines", gen.OM{{K: "p", V: []interface{}{gen.OM{{K: "name", V: "s1"}, {K: "task", V: "t"}, {K: "variables", V: defs[3]}}}}})
 		target = "p"
 	}
+	// things that are not one of the four levels must not take part: values of the task's variations (environment
+	// of the commands) and the variables of the execution context the task runs in, both using the very same names
+	wheres := []string{"before-hook", "command", "after-hook"}
+	if r != nil && idx%2 == 1 {
+		tv := cfg[len(cfg)-1].V.(gen.OM)
+		if staged {
+			tv = cfg[len(cfg)-2].V.(gen.OM)
+		}
+		td := tv[0].V.(gen.OM)
+		v1 := gen.OM{{K: "ONLY_IN_FIRST", V: "x"}}
+		cv := gen.OM{}
+		for i, n := range names {
+			if i%3 == 0 {
+				v1.Set(n, "from-the-first-variation")
+			}
+			if i%3 == 1 {
+				cv.Set(n, "from-the-context")
+			}
+		}
+		td.Set("variations", []interface{}{v1, gen.OM{{K: "ONLY_IN_SECOND", V: "y"}}})
+		td.Set("context", "box")
+		tv[0].V = td
+		cfg = append(gen.OM{{K: "contexts", V: gen.OM{{K: "box", V: gen.OM{{K: "variables", V: cv}}}}}}, cfg...)
+		wheres = []string{"before-hook", "command", "command", "after-hook"}
+	}
 	h.WriteFile(real+"/tasks.yaml", gen.YAML(cfg))
 	var args []string
 	for _, k := range sortedKeys(defs[1]) {
@@ -79,7 +104,7 @@ func c10vars(c *h.Ctx, idx int, staged bool, assign string, r *h.Rand) {
 		c.Violate("cli-crash/"+h.TopFrame(string(res.Stderr)), "taskctl died: "+how, cas)
 		return
 	}
-	if res.Exit != 0 || len(got) != 3 {
+	if res.Exit != 0 || len(got) != len(wheres) {
 		sig := "vars-run-failed"
 		if strings.Contains(string(res.Stderr), "map has no entry for key") {
 			// find which level was the only one defining the missing key
@@ -103,7 +128,7 @@ func c10vars(c *h.Ctx, idx int, staged bool, assign string, r *h.Rand) {
 		return
 	}
 	kv := parseKV(got[1])
-	for li, where := range []string{"before-hook", "command", "after-hook"} {
+	for li, where := range wheres {
 		kvl := parseKV(got[li])
 		for _, n := range names {
 			c.Count("names_checked", 1)
